@@ -705,15 +705,15 @@ func (w *W) prim(fn *ssa.Function, args []Value, pos token.Pos) Value {
 	switch fn.Name() {
 	case "zzBool":
 		t := ts.Var(w.freshName("b"), 0)
-		w.trace = append(w.trace, traceVal{Kind: "bool", T: t})
+		w.trace = append(w.trace, traceVal{Kind: "bool", T: t, Hook: w.inHook})
 		return t
 	case "zzInt":
 		t := ts.Var(w.freshName("i"), 64)
-		w.trace = append(w.trace, traceVal{Kind: "int", T: t})
+		w.trace = append(w.trace, traceVal{Kind: "int", T: t, Hook: w.inHook})
 		return t
 	case "zzByte":
 		t := ts.Var(w.freshName("c"), 8)
-		w.trace = append(w.trace, traceVal{Kind: "byte", T: t})
+		w.trace = append(w.trace, traceVal{Kind: "byte", T: t, Hook: w.inHook})
 		return t
 	case "zzString":
 		n := args[0].(*Term)
@@ -721,7 +721,7 @@ func (w *W) prim(fn *ssa.Function, args []Value, pos token.Pos) Value {
 			unsupp("zzString with symbolic bound")
 		}
 		s := w.newSymStr(w.freshName("s"), int(n.Int()))
-		w.trace = append(w.trace, traceVal{Kind: "string", S: s})
+		w.trace = append(w.trace, traceVal{Kind: "string", S: s, Hook: w.inHook})
 		return s
 	case "zzChoose":
 		n := args[0].(*Term)
@@ -733,7 +733,7 @@ func (w *W) prim(fn *ssa.Function, args []Value, pos token.Pos) Value {
 			k = w.fork(make([]*Term, n.Int()), false, "zzChoose")
 		}
 		t := ts.Int64(int64(k))
-		w.trace = append(w.trace, traceVal{Kind: "int", T: t})
+		w.trace = append(w.trace, traceVal{Kind: "int", T: t, Hook: w.inHook})
 		return t
 	case "zzAssume":
 		c := args[0].(*Term)
@@ -832,6 +832,9 @@ func (w *W) markShared(v Value) {
 		tn := st.Field(i).Type().String()
 		if tn == "sync.RWMutex" || tn == "sync.Mutex" {
 			w.shared[p.O] = p.extend(int32(i)).Key()
+			// what the object points to at the moment it becomes shared is
+			// published state as well: it must never be written again
+			w.freezeReachable(p.O.V, map[any]bool{})
 			return
 		}
 	}
